@@ -105,7 +105,7 @@ class ComplexStep(BaseGradientApproximator):
 
         return [
             perturbed_outputs[perturbation_index].imag
-            / input_perturbations[perturbation_index, perturbation_index].imag
+            / input_perturbations[:, perturbation_index].imag.sum()
             for perturbation_index in range(n_perturbations)
         ]
 
@@ -123,9 +123,12 @@ class ComplexStep(BaseGradientApproximator):
                 input_values + input_perturbations[:, perturbation_index]
             )
             perturbated_output = self.f_pointer(perturbated_input, **kwargs)
+            # A perturbation has only one non-zero component,
+            # which is not the perturbation_index-th one
+            # when only some components are used for the differentiation.
             gradient.append(
                 perturbated_output.imag
-                / input_perturbations[perturbation_index, perturbation_index].imag
+                / input_perturbations[:, perturbation_index].imag.sum()
             )
 
         return gradient
